@@ -221,6 +221,71 @@ pub fn child_race(seed: u64, threads: usize) {
     println!("OK {:?}", kinds);
 }
 
+/// child: many threads (more than any small fixed pool), each creating, using and dropping its OWN codecs with
+/// large work buffers (1 - 4 MiB, three configurations in rotation) in a loop; every few iterations a full round
+/// is compared with a reference computed sequentially at the start.  Anything shared between independent objects
+/// behind the scenes (buffer pools, caches keyed on size) is exercised at its contention points here.
+pub fn child_churn(seed: u64, threads: usize) {
+    let cfgs: [(usize, usize, usize); 3] = [(300, 200, 4096), (100, 150, 8192), (500, 500, 2048)];
+    let mut rng = Prng::new(seed);
+    let mut refs = vec![];
+    for (k, r, sb) in cfgs {
+        let originals: Vec<Vec<u8>> = (0..k).map(|_| rng.bytes(sb)).collect();
+        let mut e = ReedSolomonEncoder::new(k, r, sb).unwrap();
+        for o in &originals { e.add_original_shard(o).unwrap(); }
+        let rec: Vec<Vec<u8>> = e.encode().unwrap().recovery_iter().map(|s| s.to_vec()).collect();
+        refs.push((originals, rec));
+    }
+    let refs = Arc::new(refs);
+    let barrier = Arc::new(Barrier::new(threads));
+    let deadline = Instant::now() + Duration::from_millis(1500);
+    let mut hs = vec![];
+    for t in 0..threads {
+        let refs = refs.clone();
+        let barrier = barrier.clone();
+        hs.push(std::thread::spawn(move || -> Result<(), String> {
+            barrier.wait();
+            let mut it = 0usize;
+            while Instant::now() < deadline {
+                it += 1;
+                // two thirds of the threads stay with one configuration, the others rotate
+                let c = if t % 3 == 2 { (t + it) % 3 } else { t % 3 };
+                let (k, r, sb) = cfgs[c];
+                let (originals, rec) = &refs[c];
+                let mut e = ReedSolomonEncoder::new(k, r, sb).map_err(|e| format!("{:?}", e))?;
+                let mut d = ReedSolomonDecoder::new(k, r, sb).map_err(|e| format!("{:?}", e))?;
+                if it % 512 == 1 + t {
+                    for o in originals { e.add_original_shard(o).map_err(|e| format!("{:?}", e))?; }
+                    let got: Vec<Vec<u8>> = e.encode().map_err(|e| format!("{:?}", e))?.recovery_iter().map(|s| s.to_vec()).collect();
+                    if &got != rec { return Err(format!("thread {} iteration {}: recovery shards of {}:{} differ from the sequential reference", t, it, k, r)); }
+                    let miss = k.min(r).min(40);
+                    for i in miss..k { d.add_original_shard(i, &originals[i]).map_err(|e| format!("{:?}", e))?; }
+                    for j in 0..miss { d.add_recovery_shard(j, &rec[j]).map_err(|e| format!("{:?}", e))?; }
+                    let res = d.decode().map_err(|e| format!("{:?}", e))?;
+                    for (i, s) in res.restored_original_iter() {
+                        if s != &originals[i][..] { return Err(format!("thread {} iteration {}: restored original {} of {}:{} differs", t, it, i, k, r)); }
+                    }
+                } else if it % 16 == 0 {
+                    // reconfigure instead of dropping: another size class on the same object
+                    let (k2, r2, sb2) = cfgs[(c + 1) % 3];
+                    e.reset(k2, r2, sb2).map_err(|e| format!("{:?}", e))?;
+                    d.reset(k2, r2, sb2).map_err(|e| format!("{:?}", e))?;
+                }
+            }
+            Ok(())
+        }));
+    }
+    let mut bad = vec![];
+    for (t, h) in hs.into_iter().enumerate() {
+        match h.join() {
+            Ok(Ok(())) => {}
+            Ok(Err(e)) => bad.push(e),
+            Err(_) => bad.push(format!("thread {} panicked", t)),
+        }
+    }
+    if bad.is_empty() { println!("OK churn {}", threads); } else { println!("FAIL {} of {} churning threads failed: {}", bad.len(), threads, bad[0]); std::process::exit(1); }
+}
+
 fn run_child(args: &[String], timeout: Duration) -> Result<String, String> {
     let exe = std::env::current_exe().map_err(|e| e.to_string())?;
     let mut child = Command::new(exe).args(args).stdout(Stdio::piped()).stderr(Stdio::piped()).spawn().map_err(|e| e.to_string())?;
@@ -321,6 +386,23 @@ pub fn run(ctx: &mut Ctx) {
                 Ok(s) if s.starts_with("OK") => { ctx.count("jobs", &s); }
                 Ok(s) => ctx.oracle_fail(format!("concurrent use differs from sequential use: {}", s), &case, None),
                 Err(e) => ctx.oracle_fail(format!("concurrent run failed: {}", e), &case, None),
+            }
+        }
+    }
+    // churn: 24 threads creating / resetting / dropping their own large codecs
+    let n_churn = if ctx.thorough() { 60 } else { 6 };
+    let churn_seeds: Vec<u64> = (0..n_churn).map(|_| ctx.rng.next_u64()).collect();
+    for pair in churn_seeds.chunks(2) {
+        let hs: Vec<_> = pair.iter().map(|sd| { let sd = *sd; std::thread::spawn(move || (sd, run_child(&["c16-churn".into(), sd.to_string(), "24".into()], Duration::from_secs(120)))) }).collect();
+        for h in hs {
+            let (sd, r) = h.join().unwrap();
+            ctx.evaluations += 1;
+            ctx.distinct.insert(sd);
+            let case = Case { name: format!("churn seed={} threads=24", sd), lines: vec![format!("rsharness c16-churn {} 24", sd)], with_model: false };
+            match r {
+                Ok(s) if s.starts_with("OK") => { ctx.count("churn", "processes_ok"); }
+                Ok(s) => ctx.oracle_fail(format!("independent codecs created / dropped concurrently misbehave: {}", s), &case, None),
+                Err(e) => ctx.oracle_fail(format!("concurrent churn run failed: {}", e), &case, None),
             }
         }
     }
